@@ -382,6 +382,7 @@ type job struct {
 	diedOp string
 	diedA  int
 	subsets [][]int
+	subsetOnly bool
 }
 
 func subValues(old byte) []int {
@@ -563,7 +564,7 @@ func mustBase(e *hx.Env, b *baseInfo, err error) *baseInfo {
 }
 
 func caseOf(j *job) Case {
-	return Case{Base: j.b.Base, Mut: j.mut, Extra: j.extra, Shape: j.shape, Subsets: j.subsets}
+	return Case{Base: j.b.Base, Mut: j.mut, Extra: j.extra, Shape: j.shape, Subsets: j.subsets, SubsetOnly: j.subsetOnly}
 }
 
 func run(e *hx.Env) {
@@ -763,16 +764,30 @@ func archiveSpanJobs(e *hx.Env, b *baseInfo, absent string, existing []*job) []*
 		return nil
 	}
 	subs := allSubsets(e, len(b.Addrs))
+	var out []*job
+	// one job per (corruption, subset): a batched read that crashes the worker must not hide the others,
+	// and the full-set reads of the ordinary case usually crash first
+	perSubset := func(m Mut, ss [][]int) {
+		for _, sub := range ss {
+			out = append(out, &job{b: b, mut: m, region: "idx.span", shape: "single", extra: []string{absent},
+				subsets: [][]int{sub}, subsetOnly: true})
+		}
+	}
 	for _, j := range existing {
 		if j.shape == "single" && j.region == "idx.span" {
-			j.subsets = subs
+			var pairs [][]int
+			for _, sub := range subs {
+				if len(sub) == 2 {
+					pairs = append(pairs, sub)
+				}
+			}
+			perSubset(j.mut, pairs)
 		}
 	}
 	ends := make([]uint64, ai.nSpans+1)
 	for s := 1; s <= ai.nSpans; s++ {
 		ends[s] = binary.BigEndian.Uint64(file[ai.indexStart+8*(s-1):])
 	}
-	var out []*job
 	for s := 1; s <= ai.nSpans; s++ {
 		for t := 1; t <= ai.nSpans; t++ {
 			if t == s || ends[t]-ends[t-1] < 2 {
@@ -791,8 +806,9 @@ func archiveSpanJobs(e *hx.Env, b *baseInfo, absent string, existing []*job) []*
 					mod[p] = byte(v)
 					ne := binary.BigEndian.Uint64(mod[:])
 					if ne > lo && ne < hi && ne == lo+(hi-lo)/2 {
-						out = append(out, &job{b: b, mut: Mut{Subs: [][2]int{{entryOff + p, v}}, Trunc: -1}, region: "idx.span", shape: "single",
-							extra: []string{absent}, subsets: subs})
+						m := Mut{Subs: [][2]int{{entryOff + p, v}}, Trunc: -1}
+						out = append(out, &job{b: b, mut: m, region: "idx.span", shape: "single", extra: []string{absent}})
+						perSubset(m, subs)
 						found = true
 					}
 				}
